@@ -73,6 +73,15 @@ claim("C04", "Decided on the repository's own contribution to the file layout: t
       "length prefixes themselves are written by construct.Prefixed (trusted) and are cross-checked by building real files for solver-chosen shapes and "
       "walking them with an independent RIFF reader and stdlib wave.", XT, "DESIGN.md 2/C04")
 
+claim("C19", "PARTIAL. The FirFilter class (plain Python inside fir.pyx; also the base of the CDXtract and ChickenSys FIR presets' block handling) is cut out of "
+      "the current .pyx text and executed symbolically on index-map arrays: for every tap count <= 8, delay, and 2-/3-block split z3 compares the window "
+      "of input positions behind every output sample with the one-block run, the output count with the input count, and reset_state with a new filter; "
+      "counterexamples are replayed on the compiled class. The int16 saturation helpers are translated from the .pyx text to QF_FP. The Cython kernels "
+      "(IIR, ChickenSys convolution, circular buffer) are NOT APPLICABLE: no Cython and no C/LLVM model checker on this image.",
+      XT + " on an index-map array stand-in; QF_FP for saturation", "DESIGN.md 2/C19",
+      note=TRUST + " NOT covered (not applicable to this technique here): generic IirFilter, the three ChickenSys IIR presets, _c_chicken_sys_convolve_valid arithmetic. "
+      "Known finding F9 (short blocks / 1-tap) is listed in known_findings.txt.")
+
 _pending = "check not built yet in this session (work in progress; see DESIGN.md section 2 for the planned obligations)"
 for _p in ["C01","C02","C03","C04","C05","C06","C07","C09","C10","C11","C12","C13","C14","C15","C16","C17","C18","C19","C20"]:
     if _p not in CHECKS:
